@@ -22,5 +22,10 @@ Section Stop.
     negb (mn <=? step_of s) || ((step_of s <? T) && negb (conv s)).
 End Stop.
 
+(* setup(): a bound the user gave (0 included) is kept, a bound left at None takes the documented default
+   (energy: min_steps = round(0.1 * time_steps_total), max_steps = time_steps_total;
+    detector: min_steps = (prev_periods + 1) * steps_per_period) *)
+Definition setup_bound (given : option Z) (default : Z) : Z := match given with Some v => v | None => default end.
+
 (* ArrayContainer.reset on a state split as (materials, time-dependent part) *)
 Definition reset {M D : Type} (d0 : D) (s : M * D) : M * D := (fst s, d0).
